@@ -297,7 +297,10 @@ class OctetStringPayloadDecoder(AbstractSimplePayloadDecoder):
                      tagSet=None, length=None, state=None,
                      decodeFun=None, substrateFun=None,
                      **options):
-        if substrateFun:
+        # a constructed fragment of a constructed string is assembled from
+        # its own fragments, not taken as raw octets
+        if substrateFun and (substrateFun is not self.substrateCollector or
+                             tagSet[0].tagFormat == tag.tagFormatSimple):
             asn1Object = self._createComponent(asn1Spec, tagSet, noValue, **options)
 
             for chunk in substrateFun(asn1Object, substrate, length, options):
